@@ -58,6 +58,9 @@ RULE += (
     'nd, position) independence through one-hot weights, one case in six over a cohort of 150'
     ' clients; rotated / DRIVE histories in a child interpreter with JAX_THREEFRY_PARTITIONAB'
     'LE=0.')
+RULE += (
+    ' '
+    'Also: the quantizers called with only one of v_min / v_max.')
 ASSUMPTIONS = [
     'domain: float32 values that are 0 or normal with 2^-99 <= |x| <= 2^125 '
     '(~1.6e-30..4.3e37) for the uniform/binary quantizers, so that max-min <= '
